@@ -13,6 +13,8 @@ import json
 import os
 import re
 import shutil
+import sys
+import time
 
 from vf import coq
 from vf.core import REPO, sh
@@ -364,7 +366,10 @@ class World:
         return e
 
     def write(self, prog):
-        open(self.prog, "w").write(prog["src"])
+        # the interpreter itself in the #! line (not a version-manager shim: a shell script that starts a dozen
+        # processes, all of them traced); uftrace recognises a Python script by "python" in that line
+        src = prog["src"].replace("#!/usr/bin/env python3", "#!" + os.path.realpath(sys.executable), 1)
+        open(self.prog, "w").write(src)
         os.chmod(self.prog, 0o755)
         self.natcache = {}
 
@@ -409,7 +414,11 @@ class World:
             opts += ["--match", patt]
         cmd = ["timeout", "30", self.uft, "record", "--no-pager", "--no-event", "--libmcount-path=" + self.objdir,
                "-d", d] + opts + [self.script(form), log]    # rel: main_dir by realpath(); path: looked up in PATH
+        t0 = time.time()
         p = subprocess.run(cmd, env=self.env_for(form), capture_output=True, text=True, cwd=self.root, timeout=60)
+        self.t_record = getattr(self, "t_record", 0.0) + time.time() - t0
+        if os.environ.get("VERIF_DEBUG"):
+            self.ctx.log("record %.2fs rc=%s %s" % (time.time() - t0, p.returncode, " ".join(cmd[7:])[-90:]))
         if p.returncode != 124 and os.path.isdir(d) and not [f for f in os.listdir(d) if f.endswith(".dat")]:
             # no task data at all: legitimate when nothing is selected; seen once as a transient on a loaded
             # machine - record again and note it if the second recording differs
@@ -706,7 +715,7 @@ def run(ctx, objdir):
         if k is not None:
             ecases.append(k)
             ctx.case(key=("e2e-fixed", "os._exit", lib), tags=["e2e:fixed-os._exit", "e2e:lib:" + lib])
-    nprog = ctx.n(6, 40)
+    nprog = ctx.n(7, 50)
     for pi in range(nprog):
         prog = gen_program(rng)
         w.write(prog)
@@ -714,11 +723,13 @@ def run(ctx, objdir):
         if nat[3] is None or nat[0] not in (0, 1, 3, 4, 5):
             ctx.broken("generated program failed natively (generator bug) rc=%s: %s" % (nat[0], nat[2][-400:]), prog["src"][-3000:])
             continue
-        nconf = ctx.n(2, 5)
+        # unfiltered in the three libcall modes (cheap), then option sets with -F/-N (libmcount resolves the patterns
+        # against every native symbol table of the interpreter: about 2 s per recording)
+        nconf = 3 + ctx.n(1, 2)
         logged = sorted(set(l.split(" ", 1)[1] for l in nat[3] if l))
         for ci in range(nconf):
             lib, env, patt = gen_options(rng, prog, allow_mixed=True, logged=logged,
-                                         plain_lib=["NESTED", "SINGLE", "NONE"][pi % 3] if ci == 0 else None)
+                                         plain_lib=["NESTED", "SINGLE", "NONE"][(pi + ci) % 3] if ci < 3 else None)
             k = one_config(ctx, w, prog, nat, lib, env, patt, form=["abs", "rel", "path"][pi % 3])
             if k is None:
                 continue
@@ -728,6 +739,7 @@ def run(ctx, objdir):
             ctx.case(key=("e2e", prog["src"], lib, tuple(env or ()), patt), tags=["e2e:" + t for t in prog["tags"]] +
                      ["e2e:lib:" + lib, "e2e:filter:" + fk, "e2e:match:" + str(patt), "e2e:script-path:" + ["abs", "rel", "path"][pi % 3]], size=len(nat[3]),
                      sample={"e2e_cmd": k["rep"]["cmd"], "log_lines": len(nat[3])} if len(ctx.samples) < 5 else None)
+    ctx.log("e2e: %d recordings made (%.0f s inside `uftrace record`)" % (len(ecases), getattr(w, "t_record", 0.0)))
     res = evaluate(ctx, ecases)
     verdict(ctx, ecases, res)
 
